@@ -181,14 +181,170 @@ func c12ProtoNum(n int32) *proto.Protocol {
 // ---- the generated endpoint policy state ----
 
 type c12Set struct {
-	ID      string
-	Type    proto.IPSetUpdate_IPSetType
-	Members []string // proto member strings ("10.0.0.0/24", "10.0.0.1,tcp:80"), possibly of both families
+	ID   string
+	Type proto.IPSetUpdate_IPSetType
+	// Members is the FINAL content (proto member strings "10.0.0.0/24", "10.0.0.1,tcp:80", possibly of
+	// both families): what the iptables/nftables sets and the BPF map hold.  The checker's policy
+	// store receives Initial as an IPSetUpdate followed by Deltas as IPSetDeltaUpdates, which
+	// together yield Members (Initial == nil and no Deltas: Members is sent as the one update).
+	Members []string
+	Initial []string
+	Deltas  []c12Delta
+	// HostRemovedNextToLongPrefix: some delta removes a single address while a /25../31 (/121../127)
+	// member of the same /24 (/120) stays in the set.
+	HostRemovedNextToLongPrefix bool
+}
+
+type c12Delta struct{ Added, Removed []string }
+
+func (x *c12Set) initial() []string {
+	if x.Initial == nil && len(x.Deltas) == 0 {
+		return x.Members
+	}
+	return x.Initial
+}
+
+func c12IsLongPrefix(p netip.Prefix) bool {
+	hb := p.Addr().BitLen() - p.Bits()
+	return hb >= 1 && hb <= 7
+}
+
+// c12SameBlock: same /24 (v4) or /120 (v6).
+func c12SameBlock(a, b netip.Addr) bool {
+	if a.Is6() != b.Is6() {
+		return false
+	}
+	pa, _ := a.Prefix(a.BitLen() - 8)
+	return pa.Contains(b)
+}
+
+// c12Churn turns the generated content into an initial update plus 0-3 delta updates (what the
+// calc graph sends when endpoints / network sets come and go).  Deltas only add members that are
+// absent and remove members that are present, and never touch a member twice in one delta.
+func c12Churn(t *rapid.T, label string, ipv int, set *c12Set, cur []string) {
+	seen := map[string]bool{}
+	var uniq []string
+	for _, m := range cur {
+		if !seen[m] {
+			seen[m] = true
+			uniq = append(uniq, m)
+		}
+	}
+	cur = uniq
+	set.Initial = append([]string{}, cur...)
+	nDeltas := c12From(t, label+"-ndeltas", []int{0, 0, 1, 2, 2, 3})
+	var removedEarlier []string
+	for d := 0; d < nDeltas; d++ {
+		dl := fmt.Sprintf("%s-delta[%d]", label, d)
+		var delta c12Delta
+		touched := map[string]bool{}
+		has := func(m string) bool {
+			for _, x := range cur {
+				if x == m {
+					return true
+				}
+			}
+			return false
+		}
+		add := func(m string) {
+			if m != "" && !touched[m] && !has(m) {
+				touched[m] = true
+				delta.Added = append(delta.Added, m)
+				cur = append(cur, m)
+			}
+		}
+		remove := func(m string) {
+			if m == "" || touched[m] || !has(m) {
+				return
+			}
+			touched[m] = true
+			delta.Removed = append(delta.Removed, m)
+			var out []string
+			for _, x := range cur {
+				if x != m {
+					out = append(out, x)
+				}
+			}
+			cur = out
+			removedEarlier = append(removedEarlier, m)
+			if set.Type == proto.IPSetUpdate_NET {
+				if hp := netip.MustParsePrefix(m); hp.IsSingleIP() {
+					for _, x := range cur {
+						if lp := netip.MustParsePrefix(x); c12IsLongPrefix(lp) && c12SameBlock(lp.Addr(), hp.Addr()) {
+							set.HostRemovedNextToLongPrefix = true
+						}
+					}
+				}
+			}
+		}
+		pickWhere := func(l string, ok func(string) bool) string {
+			var c []string
+			for _, x := range cur {
+				if ok(x) {
+					c = append(c, x)
+				}
+			}
+			if len(c) == 0 {
+				return ""
+			}
+			return c[c12Idx(t, l, len(c))]
+		}
+		nOps := rapid.IntRange(1, 3).Draw(t, dl+"-nops")
+		for o := 0; o < nOps; o++ {
+			ol := fmt.Sprintf("%s-op[%d]", dl, o)
+			if set.Type != proto.IPSetUpdate_NET {
+				if c12Chance(t, ol+"-remove", 45) {
+					remove(pickWhere(ol+"-member", func(string) bool { return true }))
+				} else if len(removedEarlier) > 0 && c12Chance(t, ol+"-readd", 40) {
+					add(removedEarlier[c12Idx(t, ol+"-readd-member", len(removedEarlier))])
+				} else {
+					a := c12From(t, ol+"-addr", c12PoolFor(ipv)[:6])
+					pr := c12From(t, ol+"-proto", []string{"tcp", "tcp", "udp"})
+					po := c12From(t, ol+"-port", c12Ports)
+					add(fmt.Sprintf("%s,%s:%d", a, pr, po))
+				}
+				continue
+			}
+			isLong := func(m string) bool { return c12IsLongPrefix(netip.MustParsePrefix(m)) }
+			isHost := func(m string) bool { return netip.MustParsePrefix(m).IsSingleIP() }
+			switch c12Idx(t, ol+"-kind", 10) {
+			case 0, 1, 2: // a host address appears next to a long prefix (same /24 or /120)
+				lp := pickWhere(ol+"-longprefix", isLong)
+				if lp == "" {
+					add(c12GenCIDR(t, ipv, ol+"-cidr", 8).String())
+					break
+				}
+				b := netip.MustParsePrefix(lp).Addr().AsSlice()
+				b[len(b)-1] = c12From(t, ol+"-hostbyte", []byte{0, 1, 2, 63, 64, 127, 128, 129, 200, 254, 255})
+				a, _ := netip.AddrFromSlice(b)
+				add(netip.PrefixFrom(a, a.BitLen()).String())
+			case 3, 4, 5: // a host address goes away
+				remove(pickWhere(ol+"-host", isHost))
+			case 6: // a long prefix goes away
+				remove(pickWhere(ol+"-longprefix", isLong))
+			case 7: // something removed earlier comes back
+				if len(removedEarlier) > 0 {
+					add(removedEarlier[c12Idx(t, ol+"-readd-member", len(removedEarlier))])
+				} else {
+					add(c12GenCIDR(t, ipv, ol+"-cidr", 8).String())
+				}
+			case 8:
+				add(c12GenCIDR(t, ipv, ol+"-cidr", 8).String())
+			default:
+				remove(pickWhere(ol+"-member", func(string) bool { return true }))
+			}
+		}
+		if len(delta.Added)+len(delta.Removed) > 0 {
+			set.Deltas = append(set.Deltas, delta)
+		}
+	}
+	set.Members = cur
 }
 
 type c12Policy struct {
 	ID       *proto.PolicyID
 	Pol      *proto.Policy
+	Filler   bool   // big-program filler policy (never targeted by probe packets)
 	In, Out  bool   // listed in the tier's ingress / egress policies for this endpoint
 	Selector string // the policy's selector (only used for grouping, as in endpointManager.groupPolicies)
 }
@@ -213,6 +369,12 @@ type c12State struct {
 	tiers    []*c12Tier
 	profiles []*c12Profile
 	ep       *proto.WorkloadEndpoint
+	// "Big program" cases: the first tier holds thousands of filler rules followed by rules with long
+	// port lists, so that the BPF policy program exceeds the per-program jump limit and is split.
+	big        bool
+	bigInbound bool
+	bigFillers int
+	bigRules   []*proto.Rule
 }
 
 func (s *c12State) set(id string) *c12Set {
@@ -245,14 +407,16 @@ func c12GenSets(t *rapid.T, s *c12State) {
 	for i, id := range []string{"s:AbCd0123-_xyzEFGHijklmnopq", "s:B", "s:c9"} {
 		set := &c12Set{ID: id, Type: proto.IPSetUpdate_NET}
 		n := c12Idx(t, fmt.Sprintf("netset[%d]-size", i), 6)
+		var cur []string
 		for j := 0; j < n; j++ {
 			fam := ipv
 			if c12Chance(t, fmt.Sprintf("netset[%d][%d]-otherfamily", i, j), 10) {
 				fam = 10 - ipv // a member of the other family: not part of this family's dataplane set
 			}
 			p := c12GenCIDR(t, fam, fmt.Sprintf("netset[%d][%d]", i, j), 8)
-			set.Members = append(set.Members, p.String())
+			cur = append(cur, p.String())
 		}
+		c12Churn(t, fmt.Sprintf("netset[%d]", i), ipv, set, cur)
 		s.sets = append(s.sets, set)
 		s.netIDs = append(s.netIDs, id)
 	}
@@ -260,12 +424,14 @@ func c12GenSets(t *rapid.T, s *c12State) {
 		for i, id := range ids {
 			set := &c12Set{ID: id, Type: proto.IPSetUpdate_IP_AND_PORT}
 			n := c12Idx(t, fmt.Sprintf("%s[%d]-size", kind, i), 5)
+			var cur []string
 			for j := 0; j < n; j++ {
 				a := c12From(t, fmt.Sprintf("%s[%d][%d]-addr", kind, i, j), c12PoolFor(ipv)[:6])
 				pr := c12From(t, fmt.Sprintf("%s[%d][%d]-proto", kind, i, j), []string{"tcp", "tcp", "udp"})
 				po := c12From(t, fmt.Sprintf("%s[%d][%d]-port", kind, i, j), c12Ports)
-				set.Members = append(set.Members, fmt.Sprintf("%s,%s:%d", a, pr, po))
+				cur = append(cur, fmt.Sprintf("%s,%s:%d", a, pr, po))
 			}
+			c12Churn(t, fmt.Sprintf("%s[%d]", kind, i), ipv, set, cur)
 			s.sets = append(s.sets, set)
 		}
 		return ids
@@ -509,10 +675,88 @@ var (
 	c12StagedKinds    = []string{v3.KindStagedGlobalNetworkPolicy, v3.KindStagedNetworkPolicy, v3.KindStagedKubernetesNetworkPolicy}
 )
 
+// c12GenBigTier prepends a tier whose BPF program needs more than the per-program jump limit
+// (7992): N in 3900..4100 two-jump filler rules (protocol 253/254: no probe packet matches them)
+// followed by rules with 15-40 (sometimes hundreds of) ports.  The port lists are made long enough
+// to reach past the limit whenever the fillers alone stay below it, so the split lands inside a
+// port list in roughly half of these cases and between filler rules in the others.
+func c12GenBigTier(t *rapid.T, s *c12State) {
+	s.big = true
+	s.bigInbound = rapid.Bool().Draw(t, "big-inbound")
+	n := 3900 + c12Idx(t, "big-fillers", 201)
+	s.bigFillers = n
+	tier := &c12Tier{Name: "big", DefaultAction: c12From(t, "big-defaultAction", []string{"Deny", "Deny", "Pass"})}
+	mk := func(name string, rules []*proto.Rule, filler bool) *c12Policy {
+		id := &proto.PolicyID{Name: name, Kind: v3.KindGlobalNetworkPolicy}
+		pol := &c12Policy{ID: id, Selector: "all()", Filler: filler, In: s.bigInbound, Out: !s.bigInbound, Pol: &proto.Policy{Tier: tier.Name, OriginalSelector: "all()"}}
+		if s.bigInbound {
+			pol.Pol.InboundRules = rules
+		} else {
+			pol.Pol.OutboundRules = rules
+		}
+		return pol
+	}
+	fillers := make([]*proto.Rule, n)
+	for i := range fillers {
+		fillers[i] = &proto.Rule{Action: "deny", Protocol: c12ProtoNum(int32(253 + i%2)), RuleId: fmt.Sprintf("big.filler.r%d", i)}
+	}
+	tier.Policies = append(tier.Policies, mk("big.filler", fillers, true))
+
+	need := 8100 - 2*n // port entries needed so that the jump limit is crossed inside the port rules
+	total := 0
+	var prules []*proto.Rule
+	addRule := func(k, entries int) {
+		l := fmt.Sprintf("big.ports.r%d", k)
+		r := &proto.Rule{RuleId: l, Action: "allow"}
+		if c12Chance(t, l+"-udp", 30) {
+			r.Protocol = c12ProtoName("udp")
+		} else {
+			r.Protocol = c12ProtoNum(6)
+		}
+		base := int32(1000 + 2000*k)
+		var ports []*proto.PortRange
+		for i := 0; i < entries; i++ {
+			first := base + int32(3*i)
+			last := first
+			if (i+k)%5 == 4 {
+				last = first + 1
+			}
+			ports = append(ports, &proto.PortRange{First: first, Last: last})
+		}
+		switch c12Idx(t, l+"-field", 10) {
+		case 0, 1:
+			r.SrcPorts = ports
+		case 2:
+			r.NotDstPorts = ports // allow everything but the listed ports
+		default:
+			r.DstPorts = ports
+		}
+		prules = append(prules, r)
+		total += entries
+	}
+	k := 0
+	for nr := rapid.IntRange(1, 4).Draw(t, "big-nPortRules"); k < nr; k++ {
+		addRule(k, rapid.IntRange(15, 40).Draw(t, fmt.Sprintf("big.ports.r%d-n", k)))
+	}
+	if total < need || c12Chance(t, "big-longlist", 25) {
+		extra := need - total
+		if extra < 0 {
+			extra = 0
+		}
+		addRule(k, extra+rapid.IntRange(40, 200).Draw(t, "big-longlist-extra"))
+	}
+	s.bigRules = prules
+	tier.Policies = append(tier.Policies, mk("big.ports", prules, false))
+	s.tiers = append(s.tiers, tier)
+}
+
 func c12GenState(t *rapid.T, ipv int) *c12State {
 	s := &c12State{ipv: ipv}
 	c12GenSets(t, s)
 
+	if c12Chance(t, "bigProgram", 3) {
+		c12GenBigTier(t, s)
+	}
 	nTiers := c12From(t, "nTiers", []int{0, 1, 1, 2, 2, 2, 3, 3})
 	for ti := 0; ti < nTiers; ti++ {
 		tl := fmt.Sprintf("tier[%d]", ti)
@@ -604,6 +848,22 @@ func (s *c12State) policy(id *proto.PolicyID) *c12Policy {
 	panic("HARNESS-GAP: c12: unknown policy id")
 }
 
+func c12DescribeRules(b *strings.Builder, dir string, rs []*proto.Rule) {
+	for i, r := range rs {
+		if len(rs) > 12 && i >= 2 && i < len(rs)-1 {
+			if i == 2 {
+				fmt.Fprintf(b, "    ... %d more %s rules of the same form ...\n", len(rs)-3, dir)
+			}
+			continue
+		}
+		txt := r.String()
+		if len(txt) > 700 {
+			txt = txt[:300] + fmt.Sprintf(" ...[%d characters]... ", len(txt)-500) + txt[len(txt)-200:]
+		}
+		fmt.Fprintf(b, "    %s[%d] %s\n", dir, i, txt)
+	}
+}
+
 func (s *c12State) describe() string {
 	var b strings.Builder
 	fmt.Fprintf(&b, "endpoint: %v\n", s.ep)
@@ -611,12 +871,8 @@ func (s *c12State) describe() string {
 		fmt.Fprintf(&b, "tier %q defaultAction=%s\n", t.Name, t.DefaultAction)
 		for _, p := range t.Policies {
 			fmt.Fprintf(&b, "  policy %v in=%v out=%v selector=%q\n", p.ID, p.In, p.Out, p.Selector)
-			for i, r := range p.Pol.InboundRules {
-				fmt.Fprintf(&b, "    inbound[%d]  %v\n", i, r)
-			}
-			for i, r := range p.Pol.OutboundRules {
-				fmt.Fprintf(&b, "    outbound[%d] %v\n", i, r)
-			}
+			c12DescribeRules(&b, "inbound", p.Pol.InboundRules)
+			c12DescribeRules(&b, "outbound", p.Pol.OutboundRules)
 		}
 	}
 	for _, p := range s.profiles {
@@ -629,7 +885,14 @@ func (s *c12State) describe() string {
 		}
 	}
 	for _, x := range s.sets {
-		fmt.Fprintf(&b, "ipset %q %v %v\n", x.ID, x.Type, x.Members)
+		fmt.Fprintf(&b, "ipset %q %v final members %v\n", x.ID, x.Type, x.Members)
+		if len(x.Deltas) > 0 {
+			fmt.Fprintf(&b, "    sent to the policy store as IPSetUpdate %v", x.Initial)
+			for _, d := range x.Deltas {
+				fmt.Fprintf(&b, " then IPSetDeltaUpdate{added %v removed %v}", d.Added, d.Removed)
+			}
+			fmt.Fprintf(&b, "\n")
+		}
 	}
 	return b.String()
 }
@@ -968,7 +1231,13 @@ func c12BuildStore(s *c12State) *policystore.PolicyStore {
 	store := policystore.NewPolicyStore()
 	for _, set := range s.sets {
 		store.ProcessUpdate("", &proto.ToDataplane{Payload: &proto.ToDataplane_IpsetUpdate{
-			IpsetUpdate: &proto.IPSetUpdate{Id: set.ID, Type: set.Type, Members: append([]string(nil), set.Members...)}}})
+			IpsetUpdate: &proto.IPSetUpdate{Id: set.ID, Type: set.Type, Members: append([]string(nil), set.initial()...)}}})
+	}
+	for _, set := range s.sets {
+		for _, d := range set.Deltas {
+			store.ProcessUpdate("", &proto.ToDataplane{Payload: &proto.ToDataplane_IpsetDeltaUpdate{
+				IpsetDeltaUpdate: &proto.IPSetDeltaUpdate{Id: set.ID, AddedMembers: append([]string(nil), d.Added...), RemovedMembers: append([]string(nil), d.Removed...)}}})
+		}
 	}
 	for _, t := range s.tiers {
 		for _, p := range t.Policies {
@@ -1399,15 +1668,30 @@ func (n *c12NF) dumpVisited(p refpol.Packet, inbound bool, mark0 uint32) string 
 		want["chain "+c] = true
 	}
 	var b strings.Builder
+	var chain []string
+	flush := func() {
+		for i, l := range chain {
+			if len(chain) > 60 && i > 5 && i < len(chain)-5 {
+				if i == 6 {
+					fmt.Fprintf(&b, "  ... %d more rules ...\n", len(chain)-11)
+				}
+				continue
+			}
+			b.WriteString(l + "\n")
+		}
+		chain = nil
+	}
 	keep := false
 	for _, line := range strings.Split(n.rs.Dump(), "\n") {
 		if !strings.HasPrefix(line, " ") {
+			flush()
 			keep = want[line]
 		}
 		if keep {
-			b.WriteString(line + "\n")
+			chain = append(chain, line)
 		}
 	}
+	flush()
 	return b.String()
 }
 
@@ -1447,7 +1731,7 @@ func c12RunCase(t *rapid.T, rec *ev.Recorder, caseNo int) {
 	var inRules, outRules []*proto.Rule
 	for _, tier := range s.tiers {
 		for _, p := range tier.Policies {
-			if model.KindIsStaged(p.ID.Kind) {
+			if model.KindIsStaged(p.ID.Kind) || p.Filler {
 				continue
 			}
 			inRules = append(inRules, p.Pol.InboundRules...)
@@ -1461,18 +1745,26 @@ func c12RunCase(t *rapid.T, rec *ev.Recorder, caseNo int) {
 	cands := map[bool]*c12Cands{true: c12BuildCands(s, inRules), false: c12BuildCands(s, outRules)}
 
 	nPackets := ev.Scale(12, 24)
+	if s.big {
+		nPackets = 16
+	}
 	kinds := map[string]int{}
 	nontrivialPkts, allows, denies, alpChecks := 0, 0, 0, 0
 	var samplePkt string
 	for i := 0; i < nPackets; i++ {
 		pl := fmt.Sprintf("pkt[%d]", i)
 		inbound := rapid.Bool().Draw(t, pl+"-inbound")
+		if s.big {
+			inbound = s.bigInbound // every probe goes through the big program
+		}
 		dirRules := outRules
 		if inbound {
 			dirRules = inRules
 		}
 		var target *proto.Rule
-		if len(dirRules) > 0 && c12Chance(t, pl+"-targeted", 85) {
+		if s.big && c12Chance(t, pl+"-target-big", 75) {
+			target = s.bigRules[c12Idx(t, pl+"-target-bigrule", len(s.bigRules))]
+		} else if len(dirRules) > 0 && c12Chance(t, pl+"-targeted", 85) {
 			target = dirRules[c12Idx(t, pl+"-target-rule", len(dirRules))]
 		}
 		p := c12DrawPacket(t, pl, s, cands[inbound], target, refSets)
@@ -1558,6 +1850,11 @@ func c12RunCase(t *rapid.T, rec *ev.Recorder, caseNo int) {
 		svc = svc || len(r.DstIpPortSetIds) > 0
 		ipset = ipset || len(r.SrcIpSetIds)+len(r.DstIpSetIds)+len(r.NotSrcIpSetIds)+len(r.NotDstIpSetIds) > 0
 	}
+	deltas, hostRemoved := 0, false
+	for _, set := range s.sets {
+		deltas += len(set.Deltas)
+		hostRemoved = hostRemoved || set.HostRemovedNextToLongPrefix
+	}
 	for _, id := range s.netIDs {
 		for _, m := range s.set(id).Members {
 			p := netip.MustParsePrefix(m)
@@ -1569,7 +1866,9 @@ func c12RunCase(t *rapid.T, rec *ev.Recorder, caseNo int) {
 	classes := []string{fmt.Sprintf("v%d", ipv), fmt.Sprintf("tiers-%d", len(s.tiers)), fmt.Sprintf("profiles-%d", len(s.profiles)),
 		"policies-" + c12Bucket(pols), c12If(staged > 0, "staged-policy"), c12If(groupChains > 0, "policy-group-chain"),
 		c12If(flowLogs, "flowlogs"), "deny-" + denyAction, c12If(named, "named-port-set"), c12If(svc, "service-ipport-set"), c12If(ipset, "ip-set"),
-		c12If(longPrefix, "netset-member-prefix-25-31"), c12If(bpf.progs[true]+bpf.progs[false] > 2, "bpf-split"),
+		c12If(longPrefix, "netset-member-prefix-25-31"), c12If(bpf.progs[true]+bpf.progs[false] > 2, "bpf-program-split"),
+		c12If(s.big, "big-program"), c12If(s.big && 2*s.bigFillers+40 < 7992, "big-program-limit-crossed-in-port-rules"),
+		c12If(deltas > 0, "ipset-delta-updates"), c12If(hostRemoved, "ipset-delta-removes-host-next-to-long-prefix"),
 		c12If(allows > 0 && denies > 0, "both-allow-and-deny"), c12If(allows == 0, "all-deny"), c12If(alpChecks > 0, "alp-check-path"),
 		c12If(nontrivialPkts == 0, "all-packets-trivial-deny")}
 	var ks []string
@@ -1584,7 +1883,7 @@ func c12RunCase(t *rapid.T, rec *ev.Recorder, caseNo int) {
 			cl = append(cl, c)
 		}
 	}
-	shape := fmt.Sprintf("v%d/t%d/p%d/pol%s/st%v/g%v/%s", ipv, len(s.tiers), len(s.profiles), c12Bucket(pols), staged > 0, groupChains > 0, strings.Join(ks, ","))
+	shape := fmt.Sprintf("v%d/t%d/p%d/pol%s/st%v/g%v/big%v/d%v/%s", ipv, len(s.tiers), len(s.profiles), c12Bucket(pols), staged > 0, groupChains > 0, s.big, hostRemoved, strings.Join(ks, ","))
 	rec.SizedCase(nontrivialPkts > 0, shape, len(inRules)+len(outRules), func() any {
 		return map[string]any{"ip_version": ipv, "state": strings.Split(s.describe(), "\n"), "decisions": kinds, "example_packet": samplePkt,
 			"bpf_programs": bpf.progs[true] + bpf.progs[false]}
@@ -1594,9 +1893,9 @@ func c12RunCase(t *rapid.T, rec *ev.Recorder, caseNo int) {
 func TestVerifC12DataplanesAgree(t *testing.T) {
 	ev.Quiet()
 	rec := ev.New("C12", "dataplanes",
-		"each case: IP version, mark-bit layout, flow logs, deny action, BPF jump options, an IP-set universe (selector NET sets incl. other-family members and /25../31 CIDRs, service IP+port sets, named-port sets) and a workload endpoint with 0-3 tiers (default action Deny/Pass, 1-7 policies each incl. staged kinds, ingress/egress types, selector groups) and 0-3 profiles; "+
+		"each case: IP version, mark-bit layout, flow logs, deny action, BPF jump options, an IP-set universe (selector NET sets incl. other-family members and /25../31 CIDRs, service IP+port sets, named-port sets) whose contents reach the checker as an IPSetUpdate plus 0-3 IPSetDeltaUpdates (hosts appearing/disappearing next to long prefixes, long prefixes removed and re-added) while the other dataplanes get the final members, and a workload endpoint with 0-3 tiers (default action Deny/Pass, 1-7 policies each incl. staged kinds, ingress/egress types, selector groups) and 0-3 profiles; "+
 			"rules limited to what iptables, nftables, BPF and the app-policy checker all support (protocol by name/number or negated, src/dst nets and negated nets, ports and negated ports, IP sets and negated IP sets, service sets on egress, named ports; allow/deny/pass in policies, allow/deny in profiles); "+
-			"12 (thorough 24) probe packets per case, both directions, drawn on the boundaries of the state's own fields (CIDR edges +-1, port range ends +-1, set members) and steered to match a chosen rule or to sit exactly on a member of an IP+port set it refers to; every packet goes through all four implementations. "+
+			"about 3% of the cases prepend a tier with 3900-4100 filler rules followed by rules with 15-40 (sometimes hundreds of) src/dst/negated ports so that the BPF program is split at the production jump limit, in about 40% of them inside a port list (16 probes, all through the big program, mostly on the listed ports); 12 (thorough 24) probe packets per case, both directions, drawn on the boundaries of the state's own fields (CIDR edges +-1, port range ends +-1, set members) and steered to match a chosen rule or to sit exactly on a member of an IP+port set it refers to; every packet goes through all four implementations. "+
 			"Non-trivial = at least one packet is decided by an explicit rule or after a pass (not a plain no-match default deny); distinct = version/tier/profile/policy-count/staged/grouping shape plus the set of decision kinds",
 		"differential oracle: no reference decides; refpol only labels the odd one out and classifies cases",
 		"nfsim executes the rendered iptables/nft text, bpfvm executes the assembled BPF program; the harness replicates groupPolicies, extractTiers/extractProfiles and per-family IP-set member filtering",
